@@ -25,7 +25,8 @@ V(r, k) ==
 ModelToks(m) == [i \in 1..Len(m.toks) |-> [text |-> m.toks[i], lower |-> Lower(m.toks[i]), sep |-> FALSE,
                                             nan |-> \E j \in 1..Len(m.nan) : m.nan[j] = i - 1]]
 ModelOccs(L, m, thr) == Batch(L, ModelToks(m), thr, Linking[L])
-DriftOn == "DRIFT" \in DOMAIN IOEnv /\ IOEnv.DRIFT = "1"
+DriftOn == "DRIFT" \in DOMAIN IOEnv /\ IOEnv.DRIFT \in {"1", "3"}
+DriftMod == IF "DRIFT" \in DOMAIN IOEnv /\ IOEnv.DRIFT = "3" THEN 3 ELSE 1      \* "3": every third record (12-threshold runs)
 \* what differs first between model and implementation for one observation ("" = nothing):
 \* S6 token boundaries, S7 annotation (nan flags), S3-S5 occurrences
 DriftKind(L, text, m, thr) ==
@@ -36,10 +37,10 @@ DriftKind(L, text, m, thr) ==
   ELSE ""
 Drift == IF ~DriftOn THEN {} ELSE
          {x \in {[l |-> l, i |-> Rec[l].i, k |-> k, kind |-> DriftKind(Rec[l].q.lang, Rec[l].q.texts[1], Rec[l].multi[k], Rec[l].q.thrs[k])] :
-                    l \in {j \in 1..Len(Rec) : Rec[j].q.lang \in Modelled /\ AllKnown(Rec[j].q.texts[1])},
+                    l \in {j \in 1..Len(Rec) : j % DriftMod = 0 /\ Rec[j].q.lang \in Modelled /\ AllKnown(Rec[j].q.texts[1])},
                     k \in 1..Len(Rec[1].q.thrs)} : x.kind # ""}
 
 Bad == {x \in {[l |-> l, i |-> Rec[l].i, k |-> k, verdict |-> V(Rec[l], k)] :
                  l \in 1..Len(Rec), k \in 1..Len(Rec[1].q.thrs)} : x.verdict # ""}
-ASSUME JsonSerialize(IOEnv.OUT, [events |-> Len(Rec) * Len(Rec[1].q.thrs), pbad |-> SetToSeq(Bad), drift |-> SetToSeq(Drift), drift_checked |-> IF DriftOn THEN Cardinality({j \in 1..Len(Rec) : Rec[j].q.lang \in Modelled}) * Len(Rec[1].q.thrs) ELSE 0])
+ASSUME JsonSerialize(IOEnv.OUT, [events |-> Len(Rec) * Len(Rec[1].q.thrs), pbad |-> SetToSeq(Bad), drift |-> SetToSeq(Drift), drift_checked |-> IF DriftOn THEN Cardinality({j \in 1..Len(Rec) : j % DriftMod = 0 /\ Rec[j].q.lang \in Modelled}) * Len(Rec[1].q.thrs) ELSE 0])
 =============================================================================
